@@ -109,7 +109,7 @@ def expressions(tier):
     out = list(base) + [('T', b) for b in base] + [('T', ('T', b)) for b in base[:6]]
     comps = [('@', lf('A'), lf('D')), ('@', lf('W'), lf('A')), ('+', lf('A'), lf('D')), ('@', lf('k'), lf('A')), ('@', lf('P'), lf('A')),
              ('@', lf('A'), ('T', lf('P'))), ('@', ('T', lf('Bd')), lf('Bd')), ('@', lf('A'), ('@', lf('B'), lf('D'))),
-             ('row', [lf('A'), lf('D')]), ('col', [lf('A'), lf('W')]), ('diag', [lf('A'), lf('Bd')]), ('+', ('T', lf('A')), lf('B')),
+             ('row', (lf('A'), lf('D'))), ('col', (lf('A'), lf('W'))), ('diag', (lf('A'), lf('Bd'))), ('+', ('T', lf('A')), lf('B')),
              ('@', ('T', lf('W')), lf('W')), ('@', lf('Rs'), lf('A'))]
     out += comps + [('T', c) for c in comps]
     if tier == 'thorough':
